@@ -1445,4 +1445,88 @@ theorem anchor_single_cell_ref (p : Cell) (ref : List Char) (c r : Nat)
   refine ⟨Prod.ext (by simp only []; omega) (by simp only []; omega), ?_⟩
   rw [splitColon_of_parseA1 hq]; rfl
 
+/-! ## Round 5 (second wave): the encoders' exact acceptance, range decode → encode, normal form -/
+
+/-- **exact acceptance of the cell encoder** (round 5, second wave): `CoordinatesToCellName`
+returns a name iff the position lies inside the 16384 × 1048576 grid — for ALL integers,
+relative and absolute -/
+theorem cell_encode_accepts_iff (c r : Int) (abs : Bool) :
+    (∃ s, coordinatesToCellName c r abs = .ok s) ↔
+      1 ≤ c ∧ c ≤ (Facts.MaxColumns : Int) ∧ 1 ≤ r ∧ r ≤ (Facts.TotalRows : Int) := by
+  constructor
+  · rintro ⟨s, h⟩
+    unfold coordinatesToCellName at h
+    by_cases a : c < 1
+    · simp [a] at h
+    by_cases b : r < 1
+    · simp [b] at h
+    by_cases d : r > (Facts.TotalRows : Int)
+    · simp [a, b, d] at h
+    by_cases e : c > (Facts.MaxColumns : Int)
+    · simp [a, b, d, columnNumberToName, e] at h
+    omega
+  · rintro ⟨h1, h2, h3, h4⟩
+    have hc : c = ((c.toNat : Nat) : Int) := by omega
+    have hr : r = ((r.toNat : Nat) : Int) := by omega
+    rw [hc, hr]
+    exact ⟨_, cell_encode_eq c.toNat r.toNat abs (by omega) (by omega) (by omega) (by omega)⟩
+
+/-- **exact acceptance of the range encoder**: `coordinatesToRangeRef` returns a reference iff
+both corners lie inside the grid (ordered or not) -/
+theorem range_encode_accepts_iff (c1 r1 c2 r2 : Int) (abs : Bool) :
+    (∃ s, coordinatesToRangeRef (c1, r1, c2, r2) abs = .ok s) ↔
+      (1 ≤ c1 ∧ c1 ≤ (Facts.MaxColumns : Int) ∧ 1 ≤ r1 ∧ r1 ≤ (Facts.TotalRows : Int)) ∧
+      (1 ≤ c2 ∧ c2 ≤ (Facts.MaxColumns : Int) ∧ 1 ≤ r2 ∧ r2 ≤ (Facts.TotalRows : Int)) := by
+  rw [← cell_encode_accepts_iff c1 r1 abs, ← cell_encode_accepts_iff c2 r2 abs]
+  unfold coordinatesToRangeRef
+  dsimp only
+  constructor
+  · rintro ⟨s, h⟩
+    cases ha : coordinatesToCellName c1 r1 abs with
+    | error e => simp [ha] at h
+    | ok a =>
+      cases hb : coordinatesToCellName c2 r2 abs with
+      | error e => simp [ha, hb] at h
+      | ok b => exact ⟨⟨a, rfl⟩, ⟨b, rfl⟩⟩
+  · rintro ⟨⟨a, ha⟩, ⟨b, hb⟩⟩
+    exact ⟨a ++ [':'] ++ b, by simp only [ha, hb]⟩
+
+/-- range reference → coordinates → range reference → coordinates: whatever the decoder
+accepts (any spelling: `$`, lower case, leading zeros) re-encodes, and the canonical
+reference decodes to the same four coordinates (the other direction is `range_encode_decode`) -/
+theorem range_decode_encode (ref : List Char) (q : Int × Int × Int × Int)
+    (h : rangeRefToCoordinates ref = .ok q) :
+    ∃ canon, coordinatesToRangeRef q false = .ok canon ∧ rangeRefToCoordinates canon = .ok q := by
+  obtain ⟨c1, r1, c2, r2⟩ := q
+  obtain ⟨n1, m1, n2, m2, rfl, rfl, rfl, rfl, _, _, _, hs1, hs2⟩ :=
+    (rangeRef_ok_iff ref _ _ _ _).mp h
+  obtain ⟨_, _, _, _, _, _, _, _, _, _, _, _, a1, a2, _, a3, a4⟩ := hs1
+  obtain ⟨_, _, _, _, _, _, _, _, _, _, _, _, b1, b2, _, b3, b4⟩ := hs2
+  exact range_encode_decode n1 m1 n2 m2 false ⟨a1, a2⟩ ⟨a3, a4⟩ ⟨b1, b2⟩ ⟨b3, b4⟩
+
+/-- normal form of a range (what `MergeCell` & co. store): the sorted rectangle of every accepted
+range reference is encodable, its reference decodes to exactly that rectangle, and anything
+that reference decodes to is a fixed point of `sortCoordinates` -/
+theorem range_normal_form (ref : List Char) (q : Int × Int × Int × Int)
+    (h : rangeRefToCoordinates ref = .ok q) :
+    ∃ canon, coordinatesToRangeRef (sortCoordinates q) false = .ok canon ∧
+      rangeRefToCoordinates canon = .ok (sortCoordinates q) ∧
+      (∀ q', rangeRefToCoordinates canon = .ok q' → sortCoordinates q' = q') := by
+  obtain ⟨c1, r1, c2, r2⟩ := q
+  have g := range_decode_in_grid ref c1 r1 c2 r2 h
+  have hs : sortCoordinates (c1, r1, c2, r2) =
+      ((((min c1 c2).toNat : Nat) : Int), (((min r1 r2).toNat : Nat) : Int), (((max c1 c2).toNat : Nat) : Int), (((max r1 r2).toNat : Nat) : Int)) := by
+    unfold sortCoordinates
+    dsimp only
+    split <;> split <;> simp <;> omega
+  rw [hs]
+  obtain ⟨s, e, d⟩ := range_encode_decode (min c1 c2).toNat (min r1 r2).toNat (max c1 c2).toNat (max r1 r2).toNat false
+    (by omega) (by omega) (by omega) (by omega)
+  refine ⟨s, e, d, ?_⟩
+  intro q' hq'
+  rw [d] at hq'
+  cases hq'
+  rw [← hs]
+  exact sort_idem _
+
 end XlModel.Props.C20
